@@ -21,6 +21,8 @@ def main():
     if st:
         print("refusing: %s has local changes:\n" % target + st); return 2
     r = subprocess.run(["git", "-C", target, "apply", os.path.join(d, "patch.diff")], capture_output=True, text=True)
+    if r.returncode != 0:   # written against an earlier HEAD of /repo: three-way
+        r = subprocess.run(["git", "-C", target, "apply", "-3", os.path.join(d, "patch.diff")], capture_output=True, text=True)
     if r.returncode != 0:
         print("patch does not apply: " + r.stderr); return 2
     env = dict(os.environ);
